@@ -91,5 +91,30 @@ partial def go (cache : IO.Ref (List (List (T.Str × T.Str) × Except CA.Err (Ar
   | [a, c, g] => o.putStrLn (showOutcome (← run cache (decode a) (parseSpec c) (parseGlobal g)))
   | _ => o.putStrLn "BADLINE"
   go cache h o
+/-! mode `resolve`: `spec;globalspec;probe,probe,…` → the resolved value of each probed key (`o:<keyhex>`, `sn:<keyhex>`, `vr:<keyhex>`) -/
+def showVal : OptVal → String
+  | .b v => if v then "b1" else "b0"
+  | .n v => s!"n{v}"
+  | .s v => "s" ++ hex v
+  | .l v => "l" ++ "|".intercalate (v.map hex)
+  | .d v => "d" ++ "|".intercalate (v.map fun kv => hex kv.1 ++ ":" ++ hex kv.2)
+def probe (u : RawConfig) (g : GlobalConfig) (p : String) : String :=
+  if p.startsWith "o:" then match get? (mergedOptions u g) (dstr (p.drop 2).toString) with | some v => showVal v | none => "None"
+  else if p.startsWith "sn:" then match get? (mergedSnippets u g) (decode (p.drop 3).toString) with | some v => "s" ++ hex v | none => "None"
+  else if p.startsWith "vr:" then match get? (mergedVariables u g) (decode (p.drop 3).toString) with | some v => "s" ++ hex v | none => "None"
+  else if p == "ty" then "s" ++ hex (typeOf u)
+  else if p == "sy" then "s" ++ hex (syntaxOf u)
+  else "?"
+partial def goResolve (h o : IO.FS.Stream) : IO Unit := do
+  let line ← h.getLine
+  if line.isEmpty then return ()
+  match line.trimAsciiEnd.toString.splitOn ";" with
+  | [c, g, ps] =>
+    let u := parseSpec c; let gl := parseGlobal g
+    o.putStrLn (" ".intercalate ((ps.splitOn "~").map (probe u gl)))
+  | _ => o.putStrLn "BADLINE"
+  goResolve h o
+def mainResolve : IO Unit := do goResolve (← IO.getStdin) (← IO.getStdout)
+
 def main : IO Unit := do go (← IO.mkRef []) (← IO.getStdin) (← IO.getStdout)
 end Drv.ExpandG
